@@ -18,6 +18,10 @@ EXC_PARENTS = {
     'KeyError': {'KeyError', 'LookupError', 'Exception', 'BaseException'},
     'UserError': {'UserError', 'Exception', 'BaseException'},
     'UserBaseError': {'UserBaseError', 'BaseException'},
+    'IndexError': {'IndexError', 'LookupError', 'Exception', 'BaseException'},
+    'AssertionError': {'AssertionError', 'Exception', 'BaseException'},
+    'NotImplementedError': {'NotImplementedError', 'RuntimeError', 'Exception', 'BaseException'},
+    'TypeError': {'TypeError', 'Exception', 'BaseException'},
 }
 
 
@@ -36,6 +40,32 @@ def expected_stream(cfg):
     fail_src = M.normalise_fail(cfg.get('fail_src'))
     caught = caught_names(cfg)
     out = []
+    if (fail_fn or fail_src) and cfg.get('pre'):
+        # failing examples below regrouping stages: the stages are applied to (value | error) elements, a batch fails
+        # with the first error among its members; the catch of the prefetch stage sees the regrouped elements
+        elems = []
+        for i in range(n):
+            exc = fail_src.get(i) or fail_fn.get(i)
+            elems.append(('e', exc) if exc is not None else ('v', 100 + i))
+        for st in cfg['pre']:
+            if isinstance(st, list) and st[0] == 'batch':
+                grouped = []
+                for j in range(0, len(elems), st[1]):
+                    chunk = elems[j:j + st[1]]
+                    errs = [x for t, x in chunk if t == 'e']
+                    grouped.append(('e', errs[0]) if errs else ('v', [x for _, x in chunk]))
+                elems = grouped
+            elif st == 'slice_rev':
+                elems = elems[::-1]
+            else:
+                raise ValueError(f'no error semantics for stage {st}')
+        for t, x in elems:
+            if t == 'e':
+                if caught is not None and (EXC_PARENTS[x] & caught):
+                    continue
+                return out, x
+            out.append(x)
+        return out, None
     for i in range(n):
         exc = fail_src.get(i) or fail_fn.get(i)
         if exc is not None:
@@ -85,9 +115,7 @@ def apply_pre(cfg, vals):
 
 def expected_round(cfg, consumer):
     vals, exc = expected_stream(cfg)
-    if cfg.get('pre') and exc is None and 'cache' != cfg['pre'][0]:
-        vals = apply_pre(cfg, vals)
-    elif cfg.get('pre') and exc is None:
+    if cfg.get('pre') and not (cfg.get('fail_fn') or cfg.get('fail_src')):
         vals = apply_pre(cfg, vals)
     for st in cfg.get('post', []):
         if st == 'tile2':
@@ -144,7 +172,10 @@ def oracle_values(cfg, ex):
     if prob:
         return [(prob[0], prob[1])]
     for rec in ex.rounds:
-        vals, exc = expected_round(cfg, rec['consumer'])
+        if 'expected' in rec:       # differential: the plain pipeline with an equally seeded generator (random stages)
+            vals, exc = rec['expected'], None
+        else:
+            vals, exc = expected_round(cfg, rec['consumer'])
         if rec['delivered'] == vals and rec['exc'] == exc:
             continue
         if cfg.get('mode') == 'items' and path_of(cfg) != 'parmap' and not rec['delivered'] \
